@@ -8,11 +8,12 @@ use std::collections::HashMap;
 pub struct Pool {
     pub objs: HashMap<i64, Box<dyn Obj>>,
     pub heap: HashMap<i64, (i64, String)>, // heap bytes measured at construction, path
+    pub big: HashMap<i64, usize>,           // number of leading zeros of the "big" bit structures
 }
 
 impl Pool {
     pub fn new() -> Self {
-        Pool { objs: HashMap::new(), heap: HashMap::new() }
+        Pool { objs: HashMap::new(), heap: HashMap::new(), big: HashMap::new() }
     }
 }
 
@@ -203,6 +204,7 @@ pub fn exec(pool: &mut Pool, ev: &mut Value) {
         "reset" => {
             pool.objs.clear();
             pool.heap.clear();
+            pool.big.clear();
         }
         "newt" => {
             build(pool, ev, |evc| {
@@ -597,6 +599,57 @@ pub fn exec(pool: &mut Pool, ev: &mut Value) {
             }
             set(ev, "seq", json!(seq));
             set(ev, "outs", json!(outs));
+        }
+        // bit structures with positions beyond 2^32: `base` zeros, then a short tail
+        "newbig" => {
+            let o = ev["o"].as_i64().unwrap();
+            let kind = ev["kind"].as_str().unwrap().to_string();
+            let base = parse_sym(&ev["base"]).1 as usize;
+            let tail: Vec<bool> = expand_segs(&ev["segs"]).into_iter().map(|x| x != 0).collect();
+            match guard(|| make_big(&kind, base, tail)) {
+                Ok(Some(x)) => {
+                    pool.objs.insert(o, x);
+                    pool.big.insert(o, base);
+                    set(ev, "out", json!(0));
+                }
+                Ok(None) => set(ev, "out", json!(NA)),
+                Err(_) => set(ev, "out", json!(PANIC)),
+            }
+        }
+        "qbig" => {
+            let o = ev["o"].as_i64().unwrap();
+            let m = ev["m"].as_str().unwrap().to_string();
+            let rel: Vec<i64> = ev["rel"].as_array().map(|a| a.iter().map(|v| v.as_i64().unwrap()).collect()).unwrap_or_default();
+            let relative = ev["form"].as_str() == Some("rel");
+            let mut args = vec![];
+            let mut out = vec![];
+            if let (Some(x), Some(&base)) = (pool.objs.get(&o), pool.big.get(&o)) {
+                for r in rel {
+                    let a = if relative { (base as i128 + r as i128) as usize } else { r as usize };
+                    args.push(sym(a as u128));
+                    raw_clear();
+                    let code = gi(|| x.call(&m, 0, &[a]));
+                    out.push(res_big(code, &mut raw_take().into_iter()));
+                }
+            }
+            set(ev, "args", json!(args));
+            set(ev, "out", json!(out));
+        }
+        "metabig" => {
+            let o = ev["o"].as_i64().unwrap();
+            if let Some(x) = pool.objs.get(&o) {
+                raw_clear();
+                let meta = guard(|| x.meta()).unwrap_or(json!({}));
+                let mut raws = raw_take().into_iter();
+                // the fields are evaluated in this order by every meta() of the bit kinds
+                for f in ["len", "ones", "zeros", "zeros_trait"] {
+                    let v = match meta.get(f).and_then(|v| v.as_i64()) {
+                        Some(c) => res_big(c, &mut raws),
+                        None => json!([NA]),
+                    };
+                    set(ev, f, v);
+                }
+            }
         }
         "util" => crate::utilx::exec_util(ev),
         // SpaceUsage of the std containers the crate implements it for (no pool object)
